@@ -178,7 +178,12 @@ def run(db: DB, rep: Report) -> None:
     for sb in subs7:
         outside = set()
         for t, pol in paths.guards(sb, stop=lp7):
-            outside |= {nm for nm in paths.load_names(t) if nm not in inner and nm not in ("str", "len")}
+            # a name that is only the receiver of a method call (the partitioning the question
+            # is put to) is the context of the question, not a datum the answer is compared with
+            recv = {id(c.func.value) for c in ast.walk(t) if isinstance(c, ast.Call)
+                    and isinstance(c.func, ast.Attribute) and isinstance(c.func.value, ast.Name)}
+            outside |= {x.id for x in ast.walk(t) if isinstance(x, ast.Name) and isinstance(x.ctx, ast.Load)
+                        and id(x) not in recv and x.id not in inner and x.id not in ("str", "len", "self")}
         rep.check("N7", not outside, db.loc(sb), itf.short, "rename-guard:" + norm(sb)[:50],
                   "the renaming %s depends only on the symbol's own partitioning" % norm(sb)[:40],
                   "whether an index variable of the projected expression is renamed to its bottom partition "
@@ -417,39 +422,111 @@ def run(db: DB, rep: Report) -> None:
                           "ranks that stem from a flattening: for those the root is the concatenated name "
                           "(MK), which no statement binds and the specification does not define - the emitted "
                           "program is not closed" % (f.short, norm(e)[:50]))
+                if from_unpack and not excluded:
+                    # the constituents handed out by unpack() are partition-level ranks (M0): what the
+                    # program binds is the extent of their root (M), so each must go through get_root_name
+                    rooted = False
+                    for g_ in walk_no_nested(f.node):
+                        if isinstance(g_, ast.Call) and isinstance(g_.func, ast.Attribute) and \
+                                g_.func.attr == "get_root_name" and g_.args:
+                            a_ = g_.args[0]
+                            comp_iters = [gen.iter for p_ in paths.parents(g_, f.node)
+                                          if isinstance(p_, (ast.ListComp, ast.SetComp, ast.GeneratorExp))
+                                          for gen in p_.generators
+                                          if paths.load_names(a_) & {x.id for x in ast.walk(gen.target)
+                                                                    if isinstance(x, ast.Name)}]
+                            loop_iters = [p_.iter for p_ in paths.parents(g_, f.node) if isinstance(p_, ast.For)
+                                          and paths.load_names(a_) & {x.id for x in ast.walk(p_.target)
+                                                                     if isinstance(x, ast.Name)}]
+                            _, ex_ = paths.backward_slice(f.node, sorted(paths.load_names(a_)), with_control=False)
+                            if "unpack" in paths.called_names([a_] + ex_ + comp_iters + loop_iters):
+                                rooted = True
+                    n_n12 += 1
+                    rep.check("N12", rooted, db.loc(at), f.short, "shape-extent-roots:" + norm(e)[:40],
+                              "the constituents of a flattened rank are named by their roots",
+                              "%s builds the extent of a flattened rank from the ranks unpack() hands out "
+                              "without taking each one's root name: a flattened partition (M0) is named "
+                              "in shape=, a variable no statement binds and the specification does not "
+                              "define" % f.short)
     if n_n12 < 2:
         raise AnalysisError("fewer than 2 shape= extents derived from get_root_name found (%d)" % n_n12)
 
+    # ---- N15: whether Format(...) can name the existing tensor is decided on the ranks the tensor
+    # has after static partitioning - the ranks the keys of the dynamic partitioning are written in
+    rep.rule("N15", "the 'describe the tensor anew' decision probes the dynamic partitioning with the "
+             "tensor's statically partitioned ranks", 1)
+    bf = db.func("teaal.trans.collector.Collector.__build_formats")
+    n_n15 = 0
+    for n in walk_no_nested(bf.node):
+        if not (isinstance(n, ast.Compare) and len(n.ops) == 1 and isinstance(n.ops[0], (ast.In, ast.NotIn)) and
+                "get_dyn_parts" in paths.flow_text(n.comparators[0], n, bf.node)):
+            continue
+        var = sorted(paths.load_names(n.left))
+        its = [p_.iter for p_ in paths.parents(n, bf.node) if isinstance(p_, ast.For) and
+               set(var) & {x.id for x in ast.walk(p_.target) if isinstance(x, ast.Name)}]
+        its += [g_.iter for p_ in paths.parents(n, bf.node)
+                if isinstance(p_, (ast.GeneratorExp, ast.ListComp, ast.SetComp)) for g_ in p_.generators
+                if set(var) & {x.id for x in ast.walk(g_.target) if isinstance(x, ast.Name)}]
+        if not its:
+            continue
+        n_n15 += 1
+        nm15 = sorted({x for it_ in its for x in paths.load_names(it_)})
+        _, ex15 = paths.backward_slice(bf.node, nm15, with_control=False)
+        calls15 = paths.called_names(its + ex15)
+        consts15 = {c_.value for e_ in its + ex15 for c_ in ast.walk(e_) if isinstance(c_, ast.Constant)
+                    and isinstance(c_.value, str)}
+        static = "get_static_parts" in calls15 and "partition_ranks" in calls15
+        from_format = "rank-order" in consts15
+        rep.check("N15", static and not from_format, db.loc(n), bf.short, "build-new:dyn-probe",
+                  "the ranks probed against get_dyn_parts() are the tensor's ranks after static partitioning",
+                  "Collector.__build_formats probes get_dyn_parts() with ranks taken from %s: the keys of the "
+                  "dynamic partitioning are ranks as they stand after the static partitioning (K), not the "
+                  "final ranks of the format (K1, K0), so a dynamically partitioned tensor is not described "
+                  "anew and Format(...) names a tensor variable (A_MK1K0) that no statement binds" %
+                  ("the format's rank-order" if from_format else sorted(calls15)[:6]),
+                  decided=static or from_format)
+    if n_n15 < 1:
+        rep.undecided("N15", db.loc(bf.node), bf.short, "no membership test against get_dyn_parts() found")
+
     # ---- N3 --------------------------------------------------------------------
     rep.rule("N3", "receiver temporary is named before the next temporary is allocated", 4)
+    # one instance per emitted assignment  <next_tmp()> = <curr_tmp()>.method(...): the curr_tmp() call
+    # that names the receiver must be evaluated before the next_tmp() call that names the target of that
+    # very assignment (a next_tmp() that belongs to an earlier statement is not concerned)
     for f in db.all_functions(["teaal.trans."]):
-        currs = [n for n in walk_no_nested(f.node) if isinstance(n, ast.Call) and
-                 isinstance(n.func, ast.Attribute) and n.func.attr == "curr_tmp"]
-        nexts = [n for n in walk_no_nested(f.node) if isinstance(n, ast.Call) and
-                 isinstance(n.func, ast.Attribute) and n.func.attr == "next_tmp"]
-        if not currs or not nexts:
-            continue
-        # curr_tmp results that become the receiver of an emitted method call
-        recv_currs = []
-        for c in currs:
-            tgt = c.parent
-            names = set()
-            if isinstance(tgt, ast.Assign) and isinstance(tgt.targets[0], ast.Name):
-                names.add(tgt.targets[0].id)
-            for n in walk_no_nested(f.node):
-                if isinstance(n, ast.Call) and norm(n.func) == "EMethod" and n.args:
-                    a0 = n.args[0]
-                    if isinstance(a0, ast.Call) and norm(a0.func) == "EVar" and a0.args:
-                        x = a0.args[0]
-                        if (isinstance(x, ast.Name) and x.id in names) or x is c:
-                            recv_currs.append(c)
-        if not recv_currs:
-            continue
-        bad = paths.must_precede(f.node.body, lambda n: n in recv_currs, lambda n: n in nexts)
-        rep.check("N3", not bad, db.loc(recv_currs[0]), f.short, "tmp-order:" + f.short,
-                  "%s names the receiver temporary (curr_tmp) before allocating the target (next_tmp)" % f.short,
-                  "%s calls next_tmp() at %s before curr_tmp(): the emitted statement reads the temporary "
-                  "it is about to define (tmpK = tmpK.op(...))" % (f.short, db.loc(bad[0]) if bad else "?"))
+        def origin(e, at, depth=3):
+            while isinstance(e, ast.Name) and depth > 0:
+                v = paths.reaching_def(e.id, at, f.node)
+                if v is None:
+                    break
+                e, at, depth = v, v, depth - 1
+            return e
+
+        def tmp_calls(e, attr):
+            return [c for c in ast.walk(e) if isinstance(c, ast.Call) and isinstance(c.func, ast.Attribute)
+                    and c.func.attr == attr]
+
+        for S in [n for n in walk_no_nested(f.node) if isinstance(n, ast.Call) and norm(n.func) == "SAssign"
+                  and len(n.args) == 2]:
+            tgt = origin(S.args[0], S)
+            if isinstance(tgt, ast.Call) and norm(tgt.func) == "AVar" and tgt.args:
+                tgt = origin(tgt.args[0], tgt)
+            val = origin(S.args[1], S)
+            if not (isinstance(val, ast.Call) and norm(val.func) == "EMethod" and val.args):
+                continue
+            rcv = val.args[0]
+            if isinstance(rcv, ast.Call) and norm(rcv.func) == "EVar" and rcv.args:
+                rcv = origin(rcv.args[0], val)
+            n3_next = tmp_calls(tgt, "next_tmp")
+            n3_curr = tmp_calls(rcv, "curr_tmp")
+            if not n3_next or not n3_curr:
+                continue
+            bad = paths.must_precede(f.node.body, lambda n: n in n3_curr, lambda n: n in n3_next)
+            rep.check("N3", not bad, db.loc(n3_curr[0]), f.short, "tmp-order:%s:%s" % (f.short, norm(S)[:40]),
+                      "%s names the receiver temporary (curr_tmp) before allocating the target (next_tmp)" % f.short,
+                      "%s calls next_tmp() at %s before the curr_tmp() that names the receiver of the same "
+                      "emitted assignment: the statement reads the temporary it is about to define "
+                      "(tmpK = tmpK.op(...))" % (f.short, db.loc(bad[0]) if bad else "?"))
 
     # ---- N5 --------------------------------------------------------------------
     rep.rule("N5", "clones deriving a computed name from a fresh Tensor prepare it identically", 3)
@@ -500,6 +577,12 @@ def mutants(db: DB):
     eq, col, gr, pt = ("teaal/trans/equation.py", "teaal/trans/collector.py", "teaal/trans/graphics.py",
                        "teaal/trans/partitioner.py")
     return [
+        M("flattened extent built from the unpacked partitions, not their roots (C06-u3)", "teaal/trans/header.py",
+          "                extents = [part.get_root_name(src)\n                           for src in part.unpack(root)]",
+          "                extents = list(part.unpack(root))", "N12"),
+        M("build-new decided on the format's final ranks (C06-u2)", "teaal/trans/collector.py",
+          "            for static_rank in new_ranks:\n                if (static_rank,) in part_ir.get_dyn_parts():",
+          "            for static_rank in rank_order:\n                if (static_rank,) in part_ir.get_dyn_parts():", "N15"),
         M("timestamps created only when some rank is mapped to space", "teaal/trans/graphics.py",
           "            if spacetime.get_slip():\n                assign = SAssign(AVar(\"timestamps\"), EDict({}))",
           "            if spacetime.get_slip() and len(spacetime.get_space()) > 0:\n                assign = SAssign(AVar(\"timestamps\"), EDict({}))",
